@@ -11,7 +11,7 @@
 (* L0: every decision returned for a request to h is an answer of owner[h] (FromOwner).                            *)
 EXTENDS Naturals, Sequences, FiniteSets, TLC
 
-CONSTANTS Hosts, Clusters, Keys, TTL, Variant, MaxSteps
+CONSTANTS Hosts, Clusters, Keys, TTL, Variant, MaxSteps, Flight
 VARIABLES owner, ans, cache, ready, now, last, hist
 vars == <<owner, ans, cache, ready, now, last, hist>>
 None == [v |-> "", src |-> "", exp |-> 0]
@@ -20,13 +20,32 @@ Vals == {"allow", "deny", "error"}
 Init == /\ owner \in [Hosts -> Clusters] /\ ans \in [Clusters -> [Keys -> Vals]] /\ cache = [h \in Hosts |-> [k \in Keys |-> None]]
         /\ ready = [c \in Clusters |-> TRUE] /\ now = 0 /\ last = [v |-> "", src |-> "", h |-> "", own |-> ""] /\ hist = <<>>
 H(x) == hist' = Append(hist, x)
+\* one request to host h with key k against caches cch: the decision and the caches afterwards
+Hit(h, k, cch) == cch[h][k].v # "" /\ cch[h][k].exp > now
+Res(h, k, cch) ==
+  LET c == owner[h] e == cch[h][k] IN
+  IF ~ready[c] THEN [last |-> [v |-> "error", src |-> c, h |-> h, own |-> c], cache |-> cch]                     \* cannot be asked: not authenticated / denied
+  ELSE IF Hit(h, k, cch) THEN [last |-> [v |-> e.v, src |-> e.src, h |-> h, own |-> c], cache |-> cch]              \* cache hit
+  ELSE [last |-> [v |-> ans[c][k], src |-> c, h |-> h, own |-> c],
+        cache |-> IF ans[c][k] = "error" THEN cch ELSE [cch EXCEPT ![h][k] = [v |-> ans[c][k], src |-> c, exp |-> now + TTL]]]
 Request(h, k) ==
-  LET c == owner[h] e == cache[h][k] IN
-  /\ IF ~ready[c] THEN /\ last' = [v |-> "error", src |-> c, h |-> h, own |-> c] /\ UNCHANGED cache          \* cannot be asked: not authenticated / denied
-     ELSE IF e.v # "" /\ e.exp > now THEN /\ last' = [v |-> e.v, src |-> e.src, h |-> h, own |-> c] /\ UNCHANGED cache     \* cache hit
-     ELSE /\ last' = [v |-> ans[c][k], src |-> c, h |-> h, own |-> c]
-          /\ cache' = IF ans[c][k] = "error" THEN cache ELSE [cache EXCEPT ![h][k] = [v |-> ans[c][k], src |-> c, exp |-> now + TTL]]
+  /\ last' = Res(h, k, cache).last /\ cache' = Res(h, k, cache).cache
   /\ UNCHANGED <<owner, ans, ready, now>> /\ H([k |-> "req", h |-> h, key |-> k, c |-> "", v |-> ""])
+\* two OVERLAPPING requests with the same key to hosts of different clusters: the review of the first is still in flight when the
+\* second arrives.  Flight = "none" (the implementation): reviews in flight are not shared, each request asks its own cluster.
+\* Flight = "global": identical reviews in flight are collapsed whatever the cluster - the second request is answered (and its
+\* cluster's cache filled) with the first cluster's verdict: TLC refutes FromOwner.
+Pair(h1, h2, k) ==
+  LET c1 == owner[h1] c2 == owner[h2]
+      r1 == Res(h1, k, cache)
+      miss1 == ready[c1] /\ ~Hit(h1, k, cache)
+      miss2 == ready[c2] /\ ~Hit(h2, k, r1.cache)
+      r2 == IF Flight = "global" /\ miss1 /\ miss2
+              THEN [last |-> [v |-> ans[c1][k], src |-> c1, h |-> h2, own |-> c2],
+                    cache |-> IF ans[c1][k] = "error" THEN r1.cache ELSE [r1.cache EXCEPT ![h2][k] = [v |-> ans[c1][k], src |-> c1, exp |-> now + TTL]]]
+              ELSE Res(h2, k, r1.cache)
+  IN /\ c1 # c2 /\ last' = r2.last /\ cache' = r2.cache
+     /\ UNCHANGED <<owner, ans, ready, now>> /\ H([k |-> "pair", h |-> h1, key |-> k, c |-> h2, v |-> ""])
 Tick == /\ now' = now + TTL /\ UNCHANGED <<owner, ans, cache, ready, last>> /\ H([k |-> "tick", h |-> "", key |-> "", c |-> "", v |-> ""])
 AnswerChange(c, k, v) == /\ ans[c][k] # v /\ ans' = [ans EXCEPT ![c][k] = v] /\ UNCHANGED <<owner, cache, ready, now, last>>
                          /\ H([k |-> "answer", h |-> "", key |-> k, c |-> c, v |-> v])
@@ -37,6 +56,7 @@ AliasMove(h, c) == /\ owner[h] # c /\ owner' = [owner EXCEPT ![h] = c]
                    /\ UNCHANGED <<ans, ready, now, last>> /\ H([k |-> "move", h |-> h, key |-> "", c |-> c, v |-> ""])
 Next == /\ Len(hist) < MaxSteps
         /\ \/ \E h \in Hosts, k \in Keys : Request(h, k)
+           \/ \E h1, h2 \in Hosts, k \in Keys : Pair(h1, h2, k)
            \/ Tick \/ (\E c \in Clusters, k \in Keys, v \in Vals : AnswerChange(c, k, v))
            \/ (\E c \in Clusters : ReadyFlip(c)) \/ (\E h \in Hosts, c \in Clusters : AliasMove(h, c))
 Spec == Init /\ [][Next]_vars
